@@ -552,3 +552,53 @@ func CorpusLeaderCertFromEarlierRoot(o sink) {
 	r.o.Sample(fmt.Sprintf("%s: PRECOMMIT with the (10,0) certificate accepted by %d/3 honest replicas; replica 1 then: %s; commits: %s", r.name, accepted, lock1, commitsStr(s)))
 	r.end()
 }
+
+// CorpusProposalWithoutJustification: every replica locks on A in round 0 and only replica 3 commits. In round 1 the
+// Byzantine leader proposes a fresh block B and simply attaches no HighQc. A locked replica must run SafeNode on every
+// proposal (it fails with ErrNoSafeNodeJustification): a replica that skips the predicate when the message carries no
+// HighQc votes for B, and with the Byzantine vote B is certified, locked and committed next to A.
+func CorpusProposalWithoutJustification(o sink) {
+	cfg := bftsim.Config{N: 4, Powers: []uint64{1, 1, 1, 1}, Byz: []int{0}, Root0: 10}
+	is0 := func(i int) bool { return i == 0 }
+	cfg.Salt = findSalt(cfg, map[bftsim.VR]func(int) bool{{Root: 10, Round: 0}: is0, {Root: 10, Round: 1}: is0})
+	r := newRun(o, "corpus/locked-replica-proposal-without-highqc", cfg)
+	r.sigSuffix = "proposal-without-justification"
+	s := r.s
+	A := all(s)
+	r.elect(A, nil)
+	r.byzPropose(0, nil, "fresh")
+	r.deliverAll(nil)
+	r.phases([]int{1, 2, 3}) // PROPOSE
+	r.phases(A)              // PROPOSE_VOTE
+	r.deliverAll(nil)
+	r.phases(A) // PRECOMMIT
+	r.deliverAll(nil)
+	r.phases(A) // PRECOMMIT_VOTE: all lock on A
+	r.deliverAll(nil)
+	r.phases(A) // COMMIT
+	r.deliverAll(func(e *bftsim.Envelope) bool { return e.To == 3 })
+	r.dropAll()
+	r.phases(A) // COMMIT_PROCESS: 3 commits, the others interrupt
+	live := liveOf(s, A)
+	r.toElection(live)
+	if !committed(s, 3) || len(live) != 3 {
+		r.o.Count("proposal-without-justification:setup-failed")
+		r.end()
+		return
+	}
+	r.elect(live, nil)
+	var res1 bftsim.StepResult
+	if s.Nodes[0].B.Phase == bft.Propose {
+		r.byzPropose(0, nil, "fresh-without-highqc-to-locked-replicas")
+		s.ByzForgetLock(0)
+		r.deliverAll(nil)
+		r.phases([]int{1, 2}) // PROPOSE
+		res1 = r.phase(1)     // PROPOSE_VOTE
+		r.phase(2)
+		r.phase(0)
+		r.deliverAll(nil)
+		r.runRound(live, 0)
+	}
+	r.o.Sample(fmt.Sprintf("%s: locked replica 1 on the unjustified proposal: interrupted=%v why=%s; commits: %s", r.name, res1.Interrupted, res1.Why, commitsStr(s)))
+	r.end()
+}
